@@ -1017,6 +1017,20 @@ class Analyzer:
                         res = (0, 0)
                 return AV(iv=res, cmp=("inrange", ("place", item.ref), lo[0], hi[1]))
             return AV(iv=(0, 1))
+        mck = re.match(r"core::num::<impl (\w+)>::checked_(add|sub|mul|neg|abs)$", path)
+        if mck and a0.iv is not None and mck.group(1) in PRIM:
+            rr_ = PRIM[mck.group(1)]
+            opn = mck.group(2)
+            r_ = None
+            if opn in ("add", "sub", "mul") and len(avs) > 1 and avs[1].iv is not None:
+                r_ = {"add": iv_add, "sub": iv_sub, "mul": iv_mul}[opn](a0.iv, avs[1].iv)
+            elif opn == "neg":
+                r_ = iv_neg(a0.iv)
+            elif opn == "abs":
+                lo_ = 0 if a0.iv[0] <= 0 <= a0.iv[1] else min(abs(a0.iv[0]), abs(a0.iv[1]))
+                r_ = (lo_, max(abs(a0.iv[0]), abs(a0.iv[1])))
+            if r_ is not None:
+                return AV(pay=clip(r_, rr_))
         if path in ("core::result::Result::<T, E>::unwrap", "core::result::Result::<T, E>::expect",
                     "core::option::Option::<T>::unwrap", "core::option::Option::<T>::expect") and isinstance(a0.pay, tuple):
             return AV(iv=a0.pay)
